@@ -55,6 +55,13 @@ def exec_c10(cfg, devs):
             return [(simcf.SimCF.hdr(PORT, chan), data)]      # reply = request bytes (matches its pattern)
         return None
     dev.hooks.append(hook)
+    vsched.clear_traced_functions()
+    if cfg.get('lines'):
+        # line-level scheduling points in the retry machinery: the send section, the retry timer body, the answer matcher
+        # and the close / error paths (every private method of Crazyflie plus send_packet and close_link)
+        import cflib.crazyflie as cfm
+        vsched.trace_functions([f for f in cfh.functions_of(cfm.Crazyflie, skip=('__init__',))
+                                if f.__name__.startswith('_') or f.__name__ in ('send_packet', 'close_link')])
     ex = cfh.Exec(devs, dev, time_limit=8.0, reply_menu=REPLY_MENU, needs_resending=cfg['resend'], policy=cfg.get('policy'))
     ex.env.on_tx = lambda idx, h, data, st: ex.log('tx', idx, h, tuple(data), st, cfh._thread_name())
     info = {'sessions': []}
@@ -316,6 +323,14 @@ def configs(quick):
     return out
 
 
+def _focus_filter(devs, i, alt, label):
+    if not devs:
+        return not label.startswith('L:')
+    if len(devs) == 1:
+        return label.startswith('L:') and i <= devs[0][0] + 40
+    return label.startswith('L:') and i <= devs[1][0] + 20
+
+
 def run(ck):
     cfh.setup()
     ck.rule = ('19 request scenarios (single / prefix-sharing patterns / unsolicited matching packet / close / link error / close+reopen / error+reopen '
@@ -335,6 +350,13 @@ def run(ck):
     r2 = explore(ck, exec_c10, deep, 2, max_execs=3000000)
     ck.note('exploration_two_deviations', r2)
     ck.note('two_deviation_configurations', [c['name'] for c in deep])
+    # focused line-level search: any first deviation (reply timing, close, order), then one switch at a line of the retry
+    # machinery within the next 40 points (thorough: two switches, the second within 20 points of the first)
+    fnames = ('single:0.2', 'prefix:ab') if ck.quick else ('single:0.2', 'prefix:ab', 'inject:ab', 'close:0.2tie',
+                                                           'reopen:tie', 'error-reopen:0.3+0.05')
+    focus = [dict(c, name=c['name'] + ':lines', short=True, lines=True) for c in cs if c['name'] in fnames]
+    r3 = explore(ck, exec_c10, focus, 2 if ck.quick else 3, child_filter=_focus_filter, max_execs=3000000)
+    ck.note('focused_line_level', r3)
     ck.exhaustive = True
 
 
